@@ -1907,6 +1907,330 @@ def part_forms(ctx, res, EF, r, n=None):
         attempt(res, 'input-forms-vector', k, _case_vec_forms)
 
 
+# ------------------------------------------------------------------ part H: orientation of the particle axes
+# The semi-axes (a, b, c) belong to the coordinate axes (x, y, z) of the stiffness tensor and of the eigenstrain.  Relabelling
+# the coordinate axes by a signed permutation matrix Q (the 48 symmetry operations of the cube; 24 proper) is a change of
+# description of the SAME particle: semi-axes r'_i = r_p(i), eigenstrain Q e Q^T, stiffness Q Q Q Q C (unchanged for an isotropic
+# stiffness and for a cubic one along the axes).  Every energy must be the same.  None of kawin's tests or examples has r[0] != r[1].
+AX = 'xyz'
+PERMS = [list(p) for p in itertools.permutations(range(3))]
+
+
+def signed_perms():
+    """(Q, p, det): (Q v)_i = s_i v_p(i)"""
+    out = []
+    for p in PERMS:
+        for sg in itertools.product([1.0, -1.0], repeat=3):
+            Q = np.zeros((3, 3))
+            for i in range(3):
+                Q[i, p[i]] = sg[i]
+            out.append((Q, p, int(round(np.linalg.det(Q)))))
+    return out
+
+
+def op_name(Q, p, det):
+    sg = [int(Q[i, p[i]]) for i in range(3)]
+    return "x'y'z' = (%s)%s" % (', '.join(('-' if s < 0 else '') + AX[j] for s, j in zip(sg, p)), '' if det > 0 else ' [improper]')
+
+
+def rot4_own(Q, T):
+    return np.einsum('pi,qj,uk,vl,ijkl->pquv', Q, Q, Q, Q, T)
+
+
+def scheme_setup(d, scheme, exact_nodes):
+    """quadrature schemes of the real description: its three Lebedev tables, its own mid-point grid over one octant
+    (assumeSymmetric=True) and over the whole sphere, and an independent Gauss-Legendre x phi rule injected into it"""
+    if scheme in ORDERS:
+        d.setLebedevIntegration(scheme)
+    elif scheme == 'grid-octant':
+        d.setIntegrationIntervals(24, 24, True)
+    elif scheme == 'grid-full':
+        d.setIntegrationIntervals(64, 32, False)
+    else:
+        d.midPhiGrid, d.midThetaGrid, d.midWeights = exact_nodes
+        d.dA = math.pi / 2
+
+
+def scheme_nodes(d):
+    ph, th, w = (np.asarray(x, dtype=float).ravel() for x in (d.midPhiGrid, d.midThetaGrid, d.midWeights))
+    return np.stack([np.sin(th) * np.cos(ph), np.sin(th) * np.sin(ph), np.cos(th)], 1), w
+
+
+def nodes_invariant(n, w, Q):
+    """is the weighted node set mapped to itself by Q (directions n and -n identified: every integrand of sphInt is even in n)?
+    Then the quadrature SUM is exactly covariant under the relabelling and the energies must agree to rounding."""
+    def keys(m):
+        m = m.copy()
+        for j in (2, 1, 0):
+            flip = (np.abs(m[:, j]) > 1e-9)
+            sgn = np.where(flip & (m[:, j] < 0), -1.0, 1.0)
+            first = np.ones(len(m), dtype=bool)
+            for jj in range(j):
+                first &= np.abs(m[:, jj]) <= 1e-9
+            m = m * np.where(first, sgn, 1.0)[:, None]
+        a = np.round(np.column_stack([m, w / max(np.max(np.abs(w)), 1e-300)]), 7) + 0.0
+        return a[np.lexsort(a.T[::-1])]
+    a, b = keys(n), keys(n @ Q.T)
+    return a.shape == b.shape and bool(np.all(np.abs(a - b) < 5e-7))
+
+
+# tolerance on the energy spread for relabellings that do NOT map the node table to itself (quadrature accuracy; measured on the
+# unchanged code over seeds 0..40: low 0.12, mid 0.07, high 0.05 [the shipped Lebedev tables mis-integrate z^2 by 1.4 - 3.4 %:
+# finding lebedev-inexact-order*], octant grid 3e-3, full grid 9e-3 (iso 1.7e-2 at 48x24), product rule 1e-7)
+ORIENT_TOL = {'low': 0.3, 'mid': 0.2, 'high': 0.15, 'grid-octant': 2e-2, 'grid-full': 4e-2, 'exact': 2e-5}
+# absolute tolerance on Eshelby tensor components (measured worst: low 0.041, mid 0.027, high 0.014, full grid 6.3e-3, octant grid
+# 4e-3 on the components it can represent, product rule 6e-9 spheroid / 2.3e-6 tri-axial)
+ESHELBY_TOL = {'low': 0.09, 'mid': 0.06, 'high': 0.04, 'grid-octant': 1.5e-2, 'grid-full': 2e-2, 'exact': 1e-6}
+SCHEMES = ['low', 'mid', 'high', 'grid-octant', 'grid-full', 'exact']
+
+
+def shape_radii(r, shape, a=None):
+    a = 10 ** r.uniform(-9.5, -7.5) if a is None else a
+    if shape == 'triaxial':
+        f = np.array([1.0, r.uniform(1.25, 1.8), 0.0]); f[2] = f[1] * r.uniform(1.25, 1.8)
+        f = f / f[1]
+        return a * f[r.permutation(3)], None           # random choice of the longest / shortest axis
+    ax = AX.index(shape[-1])
+    ar = float(r.uniform(1.5, 4.0) ** r.choice([-1, 1]))
+    v = np.full(3, a); v[ax] = a * ar
+    return v, ar
+
+
+def spheroid_I(a_sym, a_eq):
+    """textbook closed forms (Mura, Micromechanics of Defects in Solids, eqs 11.28 / 11.29): (I of the symmetry axis, I of
+    the two equal axes) for a prolate (a_sym > a_eq) or oblate spheroid"""
+    q = a_sym / a_eq
+    if q > 1:
+        I_eq = 2 * math.pi * q / (q * q - 1) ** 1.5 * (q * math.sqrt(q * q - 1) - math.acosh(q))
+    else:
+        I_eq = 2 * math.pi * q / (1 - q * q) ** 1.5 * (math.acos(q) - q * math.sqrt(1 - q * q))
+    return 4 * math.pi - 2 * I_eq, I_eq
+
+
+def triaxial_I(rad):
+    """I_i = 2 pi a1 a2 a3 int_0^inf ds / ((a_i^2 + s) Delta(s)) by adaptive quadrature (independent of the code's node tables)"""
+    from scipy.integrate import quad
+    a2 = np.asarray(rad, dtype=float) ** 2
+    a2 = a2 / a2.max()                   # the I_i are homogeneous of degree 0
+    out = []
+    for i in range(3):
+        def f(t, i=i):
+            s = t / (1 - t)
+            return 1.0 / ((a2[i] + s) * math.sqrt((a2[0] + s) * (a2[1] + s) * (a2[2] + s))) / (1 - t) ** 2
+        v, _ = quad(f, 0, 1, epsabs=1e-13, epsrel=1e-13, limit=200)
+        out.append(2 * math.pi * math.sqrt(a2.prod()) * v)
+    return out
+
+
+def eshelby_iso(rad, nu, I):
+    """Eshelby tensor of the ellipsoid with semi-axes rad in an isotropic matrix from the I_i (Mura eqs 11.16 - 11.19);
+    all components not of the form iijj / ijij / ijji are zero"""
+    a2 = np.asarray(rad, dtype=float) ** 2
+    Iij = np.zeros((3, 3)); equal = np.zeros((3, 3), dtype=bool)
+    for i in range(3):
+        for j in range(3):
+            if i != j:
+                equal[i, j] = abs(a2[i] - a2[j]) <= 1e-9 * max(a2[i], a2[j])
+                if not equal[i, j]:
+                    Iij[i, j] = (I[j] - I[i]) / (a2[i] - a2[j])
+    for i in range(3):
+        eq = [j for j in range(3) if j != i and equal[i, j]]           # a_j = a_i: I_ij = I_ii
+        Iii = (4 * math.pi / a2[i] - sum(Iij[i, j] for j in range(3) if j != i and not equal[i, j])) / (3 + len(eq))
+        Iij[i, i] = Iii
+        for j in eq:
+            Iij[i, j] = Iii
+    S = np.zeros((3, 3, 3, 3))
+    q = 1.0 / (8 * math.pi * (1 - nu)); t = (1 - 2 * nu) * q
+    for i in range(3):
+        S[i, i, i, i] = 3 * q * a2[i] * Iij[i, i] + t * I[i]
+        for j in range(3):
+            if j != i:
+                S[i, i, j, j] = q * a2[j] * Iij[i, j] - t * I[i]
+                S[i, j, i, j] = S[i, j, j, i] = (a2[i] + a2[j]) * q / 2 * Iij[i, j] + t / 2 * (I[i] + I[j])
+    return S
+
+
+def part_orientation(ctx, res, EF, r, lebedev_bad):
+    lines, checks = [], []
+    exact_nodes = product_rule(*ctx.n((40, 80), (64, 128)))
+    G = signed_perms()
+    ops_full = [g for g in G if g[2] > 0 and not np.array_equal(g[0], np.eye(3))] + [g for g in G if g[2] < 0 and np.all(g[0] >= 0)]
+    ops_perm = [g for g in G if np.all(g[0] >= 0) and not np.array_equal(g[0], np.eye(3))]
+    inv_memo = {}
+    de = EF.EllipsoidalEnergyDescription()
+
+    # ---- (d) radius function and direction function use the same axis convention
+    def _case_beta_axes(k):
+        rad, _ = shape_radii(r, 'triaxial')
+        if k % 5 == 4:
+            rad, _ = shape_radii(r, 'spheroid-' + AX[k % 3])
+        m = 1 if k % 3 else int(r.integers(2, 30))
+        if k % 7 == 6:
+            ph = np.asarray(de.midPhiGrid, dtype=float).ravel()[:: 97]; th = np.asarray(de.midThetaGrid, dtype=float).ravel()[:: 97]
+        else:
+            ph = r.uniform(0, 2 * math.pi, m); th = r.uniform(0.05, math.pi - 0.05, m)
+        case = dict(r=rad.tolist(), phi=ph.tolist()[:6], theta=th.tolist()[:6], points=len(ph))
+        _case_beta_axes.info = case
+        res.case(('beta-axes', k), True); res.count('beta-axes-points', len(ph))
+        b_arr = np.asarray(de._beta(rad[0], rad[1], rad[2], ph, th), dtype=float)
+        n_arr = np.asarray(de._n(ph, th), dtype=float)
+        want = np.sqrt((rad[0] * n_arr[0]) ** 2 + (rad[1] * n_arr[1]) ** 2 + (rad[2] * n_arr[2]) ** 2)
+        bad = [i for i in range(len(ph)) if not close(b_arr[i], want[i], 1e-12)]
+        if bad:
+            i = bad[0]
+            mir = math.sqrt((rad[1] * n_arr[0, i]) ** 2 + (rad[0] * n_arr[1, i]) ** 2 + (rad[2] * n_arr[2, i]) ** 2)
+            res.violate('beta-axis-convention', '_beta(a, b, c, phi, theta) != sqrt((a n_x)^2 + (b n_y)^2 + (c n_z)^2) with n = _n(phi, theta): the radius function and the direction function '
+                        'do not attach the semi-axes to the same coordinate axes' + (' (the value is that of the ellipsoid with a and b exchanged)' if close(b_arr[i], mir, 1e-12) else ''),
+                        dict(r=rad.tolist(), phi=float(ph[i]), theta=float(th[i]), n=n_arr[:, i].tolist()), float(b_arr[i]), float(want[i]))
+        # joint relabelling on the implementation: the angles of the relabelled direction, the relabelled semi-axes
+        j = int(r.integers(0, len(ph))); pk = int(r.integers(1, 6)); p = PERMS[pk]
+        n1 = n_arr[:, j][p]; r1 = rad[p]
+        if abs(n1[2]) < 0.98:
+            th1 = math.acos(max(-1.0, min(1.0, n1[2]))); ph1 = math.atan2(n1[1], n1[0])
+            b1 = float(de._beta(r1[0], r1[1], r1[2], ph1, th1))
+            if not close(b1, float(b_arr[j]), 1e-9):
+                res.violate('beta-axis-convention', '_beta changes when the coordinate axes are relabelled (semi-axes and direction together, %s)' % op_name(*[g for g in G if g[1] == p and np.all(g[0] >= 0)][0]),
+                            dict(r=rad.tolist(), phi=float(ph[j]), theta=float(th[j]), relabelled_r=r1.tolist(), relabelled_phi=ph1, relabelled_theta=th1), b1, float(b_arr[j]))
+        # correspondence: the model's quadratic form / radicand / joint relabelling at the traced normal
+        a, b, c = (float(x) for x in rad); pj, tj, bj = float(ph[j]), float(th[j]), float(b_arr[j])
+
+        def chk(t, bj=bj, case=dict(r=[a, b, c], phi=pj, theta=tj, relabelling=p)):
+            g = t.flts()
+            names = ['quadForm r n(_n traced)', 'betaSqSC (radicand from sines / cosines)', 'betaN of the jointly relabelled (r, n)', None, 'quadForm r (nSC ...)']
+            for i, nm in enumerate(names):
+                if nm is None:
+                    continue
+                mine = g[i] if i != 2 else g[i] ** 2
+                if not close(mine, bj * bj, 1e-11):
+                    mirrored = close(g[3], bj * bj, 1e-11)
+                    res.disagree('axis convention: model %s vs _beta^2%s' % (nm, ' (the implementation equals the x<->y mirrored radicand betaSqMirrored)' if mirrored else ''), case, bj * bj, mine)
+                    return
+        lines.append('el.beta.axes %s %d' % (' '.join(f2b(x) for x in (a, b, c, pj, tj)), pk))
+        checks.append(('beta-axes', case, chk))
+    for k in range(ctx.n(60, 600)):
+        attempt(res, 'beta-axes', k, _case_beta_axes)
+
+    # ---- (a), (b): energies under joint relabelling of the axes
+    mkinds = ['iso', 'cubic', 'anisotropic']
+    shapes = ['triaxial', 'spheroid-x', 'spheroid-y', 'spheroid-z']
+
+    def _case_orientation(k):
+        mk = mkinds[k % 3]; shape = shapes[(k // 3) % 4]; ek = ['diag', 'full'][(k // 12) % 2]
+        rad, ar = shape_radii(r, shape)
+        eig = rand_eig(r, ek)
+        hom = r.random() < 0.5
+        if mk == 'iso':
+            cm = rand_iso(r)[:3]; cp = None if hom else rand_iso(r)[:3]
+        else:
+            cm = rand_cubic(r); cp = None if hom else rand_cubic(r)
+        M4 = own_2to4(EF.elasticConstantToC(*cm)); P4 = None if cp is None else own_2to4(EF.elasticConstantToC(*cp))
+        R = None
+        if mk == 'anisotropic':          # a cubic crystal that is NOT aligned with the particle axes; the relabelling acts on it too
+            R = rand_rotation(r)
+            M4 = rot4_own(R, M4); P4 = None if P4 is None else rot4_own(R, P4)
+        V = 4 * math.pi / 3 * float(np.prod(rad))
+        floor = 1e-3 * cm[2] * float(np.sum(eig * eig)) * V
+        case = dict(matrix=mk, cM=list(map(float, cm)), cP=None if cp is None else list(map(float, cp)), crystal_rotation=None if R is None else R.tolist(),
+                    r=rad.tolist(), shape=shape, eigenstrain=eig.tolist(), eig_kind=ek)
+        _case_orientation.info = case
+        res.case(('orientation', mk, shape, ek, k), True); res.count('orientation:' + mk); res.count('orientation:' + shape)
+        if k < 2:
+            res.sample(case)
+        signs_matter = not (ek == 'diag' and mk != 'anisotropic')
+        ops = ops_full if signs_matter else ops_perm
+        for scheme in SCHEMES:
+            if scheme == 'grid-octant' and (ek != 'diag' or mk == 'anisotropic'):
+                continue                # the octant grid is for integrands that are even in every coordinate (documented option)
+
+            def energies(Q, p):
+                se = EF.StrainEnergy('ellipsoid')
+                scheme_setup(se.description, scheme, exact_nodes)
+                se.setElasticTensor(M4 if mk != 'anisotropic' else rot4_own(Q, M4))
+                if P4 is not None:
+                    se.setElasticTensorPrecipitate(P4 if mk != 'anisotropic' else rot4_own(Q, P4))
+                se.setEigenstrain(Q @ eig @ Q.T)
+                d = se.description; rr = rad[p]
+                return se, np.array([float(se.compute(rr)), float(d.strainEnergyEllipsoid(rr))])
+            se0, E0 = energies(np.eye(3), [0, 1, 2])
+            if scheme not in inv_memo:
+                nd = scheme_nodes(se0.description)
+                inv_memo[scheme] = {op_name(*g): nodes_invariant(nd[0], nd[1], g[0]) for g in G}
+            inv = inv_memo[scheme]
+            if signs_matter:
+                is_exact = lambda g: inv[op_name(*g)]
+            else:       # diagonal eigenstrain, stiffness along the axes: Q and Q diag(+-1) describe the same input
+                is_exact = lambda g: any(inv[op_name(*h)] for h in G if h[1] == g[1])
+            # the code's Lebedev tables and octant grid: the relabellings that map the table to itself (sharp) and the six permutations;
+            # whole-sphere grid and product rule: all 24 proper operations and the three transpositions
+            use = ops if scheme in ('grid-full', 'exact') else [g for g in ops if is_exact(g) or np.all(g[0] >= 0)]
+            scale = max(float(np.max(np.abs(E0))), floor)
+            worst = None
+            for g in use:
+                _, E1 = energies(g[0], g[1])
+                res.evaluations += 1
+                exact = is_exact(g)
+                tol = 1e-9 if exact else ORIENT_TOL[scheme]
+                res.count('orientation-%s-%s' % (scheme, 'node-table-invariant' if exact else 'quadrature-accuracy'))
+                dev = float(np.max(np.abs(E1 - E0))) / scale
+                if not (dev <= tol) and (worst is None or dev / tol > worst[0]):
+                    worst = (dev / tol, g, E1, exact, tol, dev)
+            if worst is not None:
+                _, g, E1, exact, tol, dev = worst
+                # (a table already recorded as inexact: deviations of relabellings that do not map it to itself belong to that finding)
+                known = scheme in ORDERS and ORDERS[scheme] in lebedev_bad and not exact
+                res.violate(('lebedev-inexact-order%d' % ORDERS[scheme]) if known else 'orientation-joint-permutation-%s-%s' % (mk, shape),
+                            'the same particle described in relabelled coordinate axes (%s: semi-axes, eigenstrain%s transformed together) has a different strain energy; '
+                            'quadrature %s%s, relative deviation %.3e > %.1e (compute, strainEnergyEllipsoid)'
+                            % (op_name(*g), ' and stiffness' if mk == 'anisotropic' else '', scheme,
+                               ' (the node table is mapped to itself by this relabelling: the sums must agree to rounding)' if exact else '', dev, tol),
+                            dict(case, quadrature=scheme, Q=g[0].tolist(), relabelled_r=rad[g[1]].tolist(), relabelled_eigenstrain=(g[0] @ eig @ g[0].T).tolist()),
+                            E1.tolist(), E0.tolist())
+    for k in range(ctx.n(24, 240)):
+        attempt(res, 'orientation', k, _case_orientation)
+
+    # ---- (c) textbook Eshelby tensor of a spheroid about each coordinate axis (and of a tri-axial ellipsoid) in an isotropic matrix
+    comps = [(i, i, j, j) for i in range(3) for j in range(3)] + [(i, j, i, j) for i in range(3) for j in range(3) if i < j]
+    allc = list(itertools.product(range(3), repeat=4))
+
+    def _case_eshelby_spheroid(k):
+        cm = rand_iso(r); M = EF.elasticConstantToC(*cm[:3]); nu = cm[4]
+        shape = shapes[1 + k % 3] if k % 4 != 3 else 'triaxial'
+        rad, ar = shape_radii(r, shape)
+        if shape == 'triaxial':
+            I = triaxial_I(rad)
+        else:
+            ax = AX.index(shape[-1]); a_eq = float(rad[(ax + 1) % 3])
+            Is, Ie = spheroid_I(float(rad[ax]), a_eq)
+            I = [Ie] * 3; I[ax] = Is
+        want = eshelby_iso(rad, nu, I)
+        case = dict(cM=list(map(float, cm[:3])), nu=float(nu), r=rad.tolist(), shape=shape, aspect_ratio=ar)
+        _case_eshelby_spheroid.info = case
+        res.case(('eshelby-spheroid', shape, k), True); res.count('eshelby-textbook:' + shape + ('' if ar is None else ':prolate' if ar > 1 else ':oblate'))
+        for scheme in SCHEMES:
+            se = EF.StrainEnergy('ellipsoid'); scheme_setup(se.description, scheme, exact_nodes)
+            se.setElasticTensor(M); se.setEigenstrain(0.01)
+            d = se.description
+            S = np.asarray(d.Sijmn(d.Dijkl(rad, se.params.cMatrix_4th)), dtype=float)
+            tol = ESHELBY_TOL[scheme] * (50 if (scheme == 'exact' and shape == 'triaxial') else 1)
+            dev = np.abs(S - want)
+            cand = comps if scheme == 'grid-octant' else allc      # (one octant cannot represent the components that are odd in a coordinate)
+            bad = [c for c in cand if not dev[c] <= tol]
+            res.evaluations += 1; res.count('eshelby-textbook-' + scheme)
+            if bad:
+                c = max(bad, key=lambda c: dev[c])
+                comp = ''.join(str(i + 1) for i in c)
+                key = ('eshelby-spheroid-about-%s-component-%s' % (shape[-1], comp)) if shape != 'triaxial' else 'eshelby-triaxial-component-' + comp
+                if scheme in ORDERS and ORDERS[scheme] in lebedev_bad and float(dev[c]) <= 2 * tol:
+                    key = 'lebedev-inexact-order%d' % ORDERS[scheme]       # within twice the margin on a table recorded as inexact
+                res.violate(key, 'Eshelby tensor of %s in an isotropic matrix (quadrature %s): S%s = %.6f, textbook %.6f (tolerance %.1e; %d components differ)'
+                            % ('a tri-axial ellipsoid' if shape == 'triaxial' else 'a %s spheroid with symmetry axis %s' % ('prolate' if ar > 1 else 'oblate', shape[-1]),
+                               scheme, comp, S[c], want[c], tol, len(bad)),
+                            dict(case, quadrature=scheme), {''.join(str(i + 1) for i in b): float(S[b]) for b in bad[:6]}, {''.join(str(i + 1) for i in b): float(want[b]) for b in bad[:6]})
+    for k in range(ctx.n(16, 160)):
+        attempt(res, 'eshelby-spheroid', k, _case_eshelby_spheroid)
+    return lines, checks
+
+
 # ------------------------------------------------------------------ entry points
 def corr(ctx, oracle_only=False, scale=1):
     res = Result()
@@ -1930,6 +2254,8 @@ def corr(ctx, oracle_only=False, scale=1):
     part_order_oracle(ctx, res, EF, r)
     part_forms(ctx, res, EF, r)
     l, c = part_history(ctx, res, EF, r)
+    lines += l; checks += c
+    l, c = part_orientation(ctx, res, EF, r, lebedev_bad)        # (last: the random stream of the parts above is unchanged)
     lines += l; checks += c
     if ctx.driver_ok and not oracle_only:
         out = vlib.run_driver(PROP, lines)
@@ -1963,6 +2289,7 @@ def search(ctx, broken):
     part_history(big, res, EF, r)
     part_sequences(big, res, EF, r)
     part_objects(big, res, EF, r)
+    part_orientation(big, res, EF, r, bad)
     return res
 
 
